@@ -17,7 +17,7 @@ func init() {
 			"D3 overlap enumeration — the source range is [old.LowerBound(i)·scale, old.LowerBound(i+1)·scale), the target loop starts at new.Index(lower) and continues while new.LowerBound(out) < upper, the weight sent is count·(min(outHi,inHi) − max(outLo,inLo))/(inHi − inLo) and goes to the target store at the loop's own index. "+
 			"D4 no negative weight — on every path reaching the target AddWithCount the overlap size (numerator of the proportion) is established positive or non-negative by a dominating comparison with 0 (or clamped with max(0,·)); count > 0 and inHi − inLo > 0 are axioms (ForEach yields positive weights; LowerBound is increasing and scale > 0). "+
 			"D5 exact statistics are rescaled by the factor — the exact variant's ChangeMapping returns {inner.ChangeMapping(…, scale), a Copy() of the statistics rescaled exactly once by that same scale} and never writes the receiver's statistics; SummaryStatistics.Rescale scales sum and compensation, orders min/max by the sign of the factor and never touches the count (C10-D1/D3 obligations re-evaluated here). "+
-			"SHARED (obligations of other properties that decide clauses this property states too, re-evaluated here under their home rule ids): C04-D1/D2/D3/D5/D6/D9 and C05-D8 (the add side of every store: the converted weights are counted at the indexes they are added with). C19-D2/D3 (Equals of the mappings, on which the identity shortcut rests). C14-D2 (the identity shortcut returns Copy(): every Copy defines every field — bin limits and flags included — and is deep). C15-D1 for every store (the target stores are the caller's and may be recycled with Clear: a cleared store takes the converted bins like a new one). C03-D1/D2 (Index of every mapping kind is floor(log_like(v)·multiplier + indexOffset) and LowerBound / Value invert exactly that term — the general path starts at newMapping.Index of the first old bound and walks LowerBound of both mappings, so a target mapping with a non-zero offset is placed correctly). "+
+			"SHARED (obligations of other properties that decide clauses this property states too, re-evaluated here under their home rule ids): C04-D1/D2/D3/D5/D6/D9 and C05-D8 (the add side of every store: the converted weights are counted at the indexes they are added with). C19-D2/D3 (Equals of the mappings, on which the identity shortcut rests). C14-D2 (the identity shortcut returns Copy(): every Copy defines every field — bin limits and flags included — and is deep). C15-D1 for every store (the target stores are the caller's and may be recycled with Clear: a cleared store takes the converted bins like a new one). C03 all rules (Index of every mapping kind is floor(log_like(v)·multiplier + indexOffset) and LowerBound / Value invert exactly that term — the general path starts at newMapping.Index of the first old bound and walks LowerBound of both mappings, so a target mapping with a non-zero offset is placed correctly). "+
 			"NOT DECIDED: conservation of total weight up to rounding, the combined accuracy bound, rank distance.",
 		"one obligation per ChangeMapping path, per overlap term, per path reaching the weighted add",
 		false, runC17)
@@ -49,7 +49,7 @@ func runC17(c *Ctx) {
 	c.shared(func() { c14Copies(c, a) }, func(o *Obligation) bool { return true })
 	// the general path places every old bin by newMapping.Index / LowerBound of the target and old bounds of the source:
 	// the index formula of every mapping kind and its inverses (C03-D1 / C03-D2, index offset included)
-	c.shared(func() { runC03(c) }, func(o *Obligation) bool { return o.Rule == "C03-D1" || o.Rule == "C03-D2" })
+	c.shared(func() { runC03(c) }, func(o *Obligation) bool { return strings.HasPrefix(o.Rule, "C03-") })
 	// the caller supplies the target stores and may recycle them with Clear: a cleared store receives the converted
 	// bins like a new one (every field its range arithmetic reads is reset)
 	if pr := c.paginated(); pr.err == "" {
